@@ -39,6 +39,36 @@ func runPathStreams(out *vOut, r *rand.Rand, n int) {
 		req2 := "path iswire " + eq(p)
 		out.emit(req2, fmt.Sprint(b2i(isWireImport(p))))
 	}
+	// importableFrom: Go's rule for internal packages on paths with internal-like segments
+	isegs := []string{"internal", "internal", "internals", "xinternal", "a", "b.com", "lib", "sub", "vendor", "x"}
+	mk := func() string {
+		k := 1 + r.Intn(5)
+		parts := make([]string, k)
+		for j := range parts {
+			parts[j] = isegs[r.Intn(len(isegs))]
+		}
+		return strings.Join(parts, "/")
+	}
+	for i := 0; i < n/2; i++ {
+		p := mk()
+		from := mk()
+		switch r.Intn(5) {
+		case 0:
+			// inside the tree of p's last internal element
+			if k := strings.LastIndex(p, "/internal"); k > 0 {
+				from = p[:k] + "/" + mk()
+			}
+		case 1:
+			if k := strings.LastIndex(p, "/internal"); k > 0 {
+				from = p[:k]
+			}
+		case 2:
+			from = p + "x"
+		}
+		req := "path importable " + eq(p) + " " + eq(from)
+		_, reply := guarded(func() (string, string) { return req, fmt.Sprint(b2i(importableFrom(p, from))) }, func() string { return req })
+		out.emit(req, reply)
+	}
 	// frame: the import block must not depend on map iteration order
 	for i := 0; i < n/10; i++ {
 		g := &gen{pkg: &packages.Package{Name: "p", PkgPath: "example.com/p", Types: types.NewPackage("example.com/p", "p")},
